@@ -2,7 +2,8 @@
    input : ( root ((parent ((child shift)...) bucket) ...) )   keys in insertion order
    output: ( status needed check ) with status 0 ok / 1 out of fuel / 2 RuntimeError /
            3 root does not pump; needed = list of keys (parent ((child shift)...) bucket);
-           check = 1 iff distinct parents and productive *)
+           check = 1 iff distinct parents and productive.
+   Status 1 cannot occur (ExtractorTermination.extract_never_out_of_fuel). *)
 From Coq Require Import ZArith List Bool.
 From CSS Require Import Base.Sx Forest.Spec Forest.Model Forest.Run Forest.Extractor.
 Import ListNotations.
@@ -18,15 +19,22 @@ Definition enc_bkey (k : bkey) : sx :=
      L (map (fun cs => L [of_nat (fst cs); I (snd cs)]) (kids (bk_key k)));
      of_nat (bk_bucket k)].
 
+(* every table-method run gets at least the fuel PROVED sufficient for its own
+   history (TerminationRun.run_terminates): the `fuel` argument is only a floor
+   and no run below can return None (ExtractorTermination.v) *)
+Definition enough (fuel : nat) (ops : list op) : nat := Nat.max fuel (fuel_for ops).
+
 (* _is_productive: a fresh table method fed with the keys *)
 Definition prod_tm (fuel : nat) (root : nat) (ks : list bkey) : option bool :=
-  match run pick0 fuel init (map (fun k => AddKey (bk_key k)) ks) with
+  let ops := map (fun k => AddKey (bk_key k)) ks in
+  match run pick0 (enough fuel ops) init ops with
   | None => None
   | Some st => Some (snd (is_pumping st root))
   end.
 
 Definition extract (fuel : nat) (root : nat) (ks : list bkey) : mres (list bkey) :=
-  match run pick0 fuel init (map (fun k => AddKey (bk_key k)) ks) with
+  let ops := map (fun k => AddKey (bk_key k)) ks in
+  match run pick0 (enough fuel ops) init ops with
   | None => OutOfFuel
   | Some st =>
       let sub := map (fun i => nth i ks (mkb dummy 0)) (pumping_subuniverse st) in
